@@ -164,10 +164,41 @@ def _one(arch, f, canon, fns):
         k = sc.at(call)
         return sc.resolve(call.args[0], k), sc.resolve(call.args[3], k)
 
+    def via_helper(call):
+        """in-loop call of a same-module helper that dispatches its own parameters: `g(.., name, .., base, ..)` with
+        `_process_archive_entry(p, _, _, q)` inside g for unmodified parameters p, q -> the argument expressions bound to
+        (p, q) for every dispatch inside g; None if g is not such a helper"""
+        g = arch.functions.get(dotted(call.func))
+        if g is None or dotted(call.func) in (SKIP, DISPATCH):
+            return None
+        inner = [n for n in ast.walk(g) if isinstance(n, ast.Call) and dotted(n.func) == DISPATCH]
+        if not inner:
+            return None
+        params = [a.arg for a in g.args.posonlyargs + g.args.args]
+        if g.args.vararg or g.args.kwarg or any(isinstance(a, ast.Starred) for a in call.args) or any(k.arg is None for k in call.keywords):
+            raise Unrecognised(f"line {call.lineno}: helper {g.name} called with star arguments")
+        bound = dict(zip(params, call.args))
+        bound.update({k.arg: k.value for k in call.keywords})
+        pairs = []
+        for c2 in inner:
+            if len(c2.args) != 4 or c2.keywords or not all(isinstance(c2.args[i], ast.Name) for i in (0, 3)):
+                raise Unrecognised(f"line {c2.lineno}: dispatch inside helper {g.name} does not pass plain parameters")
+            p_, q_ = c2.args[0].id, c2.args[3].id
+            if p_ not in bound or q_ not in bound or _stores(g, p_) or _stores(g, q_):
+                return None       # not parameters handed through unchanged (e.g. a work-list consumer: handled elsewhere)
+            pairs.append((bound[p_], bound[q_]))
+        return pairs
+
     def need(n):
         if not isinstance(n, ast.Call) or id(n) not in in_loop:
             return []
         d = dotted(n.func)
+        if d in arch.functions and d not in (SKIP, DISPATCH):
+            try:
+                if via_helper(n):
+                    return [("selected", f"line {n.lineno}: member dispatch through {d}")]
+            except Unrecognised:
+                return [("selected", f"line {n.lineno}: member dispatch through {d}")]
         if d == DISPATCH:
             return [("selected", f"line {n.lineno}: member dispatch")]
         if d.endswith(".append") and len(n.args) == 1 and isinstance(n.args[0], ast.Tuple):
@@ -193,12 +224,23 @@ def _one(arch, f, canon, fns):
                 why.append(f"line {call.lineno}: dispatched as ({pair[0]}, {pair[1]}), skip rule tested ({A}, {B})")
         else:
             _consumer(f, call, worklists, A, B, why)
-    # 7z: the work list is handed to a helper that dispatches per entry
+    # 7z: the work list is handed to a helper that dispatches per entry; any format: the dispatch sits in a per-member helper
     for call in [n for n in ast.walk(f) if isinstance(n, ast.Call) and dotted(n.func) in arch.functions and dotted(n.func) not in (SKIP, DISPATCH)]:
         g = arch.functions[dotted(call.func)]
         inner = [n for n in ast.walk(g) if isinstance(n, ast.Call) and dotted(n.func) == DISPATCH]
         if not inner:
             continue
+        if id(call) in in_loop:
+            pairs = via_helper(call)
+            if pairs:
+                k = sc.at(call)
+                for (x_, y_) in pairs:
+                    n_disp += 1
+                    got = (sc.resolve(x_, k), sc.resolve(y_, k))
+                    if got != (A, B):
+                        why.append(f"line {call.lineno}: {g.name} dispatches ({got[0]}, {got[1]}), skip rule tested ({A}, {B})")
+                fns.append(dict(arch.fn_info(dotted(call.func)), obligations=1))
+                continue
         params = [a.arg for a in g.args.args]
         passed = {}
         for i, a in enumerate(call.args):
